@@ -11,6 +11,7 @@
 -/
 import NdnVerif.C08.LemmasDrain
 import NdnVerif.C08.LemmasFib
+import NdnVerif.C08.LemmasHash2
 namespace Ndn.C08
 open Ndn.C07 (Minimal OnPath prefixes)
 
@@ -216,6 +217,46 @@ theorem fib_tree_minimal (ops : List FibOp) :
 
 example : (({} : FibTree).run [FibOp.ins [⟨8, [97]⟩, ⟨8, [98]⟩, ⟨8, [99]⟩] 1, FibOp.rem [⟨8, [97]⟩, ⟨8, [98]⟩, ⟨8, [99]⟩] 1]).nodes = [] := by
   decide
+
+/-- **fib_hash_minimal.** After every history of the five mutators on the hash-table FIB, for every
+    virtual-name length `m ≥ 1`:
+    * the real table has one entry per name and every entry carries a next hop or a strategy
+      (so it holds exactly the prefixes with next hops or a strategy);
+    * `virtTable` and `virtTableNames` have the same keys, one entry each, namely exactly the
+      `m`-component prefixes of the real names of at least `m` components;
+    * the names recorded under a virtual name are exactly those real names — at least one — and
+      `md` is the length of the longest of them.
+    (`m = 0` is excluded: the constructor puts "/" into the real table without a virtual entry.) -/
+theorem fib_hash_minimal (m : Nat) (hm : 1 ≤ m) (ops : List FibOp) :
+    let f := ({ m := m } : FibHash).run ops
+    (keys f.real).Nodup ∧ (∀ n ∈ keys f.real, liveE (aget ([], false) f.real n) = true) ∧
+    (keys f.vnames).Nodup ∧ (keys f.virt).Nodup ∧ (∀ v, v ∈ keys f.virt ↔ v ∈ keys f.vnames) ∧
+    (∀ v, v ∈ keys f.vnames ↔ ∃ x, x ∈ keys f.real ∧ m ≤ x.length ∧ x.take m = v) ∧
+    (∀ v, v ∈ keys f.vnames →
+      (∀ x, x ∈ aget [] f.vnames v ↔ (x ∈ keys f.real ∧ m ≤ x.length ∧ x.take m = v)) ∧
+      aget [] f.vnames v ≠ [] ∧ aget 0 f.virt v = maxLen (aget [] f.vnames v)) := by
+  intro f
+  obtain ⟨h, hfm⟩ := FibHash.run_inv (FibHash.init_inv m hm) ops
+  have hfm' : f.m = m := hfm
+  have hv := h.virt
+  rw [hfm'] at hv
+  refine ⟨h.rnodup, fun n hn => h.live n hn (by simp), hv.nodupN, hv.nodupT, hv.same, ?_, ?_⟩
+  · intro v
+    constructor
+    · intro hk
+      have hne := hv.nonempty v hk
+      cases hl : aget [] f.vnames v with
+      | nil => exact absurd hl hne
+      | cons x t =>
+        have hx : x ∈ aget [] f.vnames v := by rw [hl]; simp
+        exact ⟨x, (hv.names v hk x).mp hx⟩
+    · rintro ⟨x, hx, hl, rfl⟩
+      exact hv.covered x hx hl
+  · intro v hk
+    exact ⟨hv.names v hk, hv.nonempty v hk, hv.md v ((hv.same v).mpr hk)⟩
+
+example : (({ m := 2 } : FibHash).run [FibOp.ins [⟨8, [97]⟩, ⟨8, [98]⟩, ⟨8, [99]⟩] 1, FibOp.ins [⟨8, [97]⟩, ⟨8, [98]⟩, ⟨8, [99]⟩, ⟨8, [100]⟩] 1,
+    FibOp.rem [⟨8, [97]⟩, ⟨8, [98]⟩, ⟨8, [99]⟩, ⟨8, [100]⟩] 1, FibOp.rem [⟨8, [97]⟩, ⟨8, [98]⟩, ⟨8, [99]⟩] 1]).virt = [] := by decide
 
 /-- **rib_minimal.** After every history of AddRoute / RemoveRoute / CleanUpFace the RIB tree holds
     exactly the nodes on paths to names with at least one route. -/
